@@ -7093,6 +7093,64 @@ impl Builder {
         self.insert_into_block(insert_point, inst)?;
         Ok(())
     }
+    #[doc = "Appends an OpLifetimeStart instruction to the current block."]
+    pub fn lifetime_start(&mut self, pointer: spirv::Word, size: u32) -> BuildResult<()> {
+        #[allow(unused_mut)]
+        let mut inst = dr::Instruction::new(
+            spirv::Op::LifetimeStart,
+            None,
+            None,
+            vec![dr::Operand::IdRef(pointer), dr::Operand::LiteralBit32(size)],
+        );
+        self.insert_into_block(InsertPoint::End, inst)?;
+        Ok(())
+    }
+    #[doc = "Appends an OpLifetimeStart instruction to the current block."]
+    pub fn insert_lifetime_start(
+        &mut self,
+        insert_point: InsertPoint,
+        pointer: spirv::Word,
+        size: u32,
+    ) -> BuildResult<()> {
+        #[allow(unused_mut)]
+        let mut inst = dr::Instruction::new(
+            spirv::Op::LifetimeStart,
+            None,
+            None,
+            vec![dr::Operand::IdRef(pointer), dr::Operand::LiteralBit32(size)],
+        );
+        self.insert_into_block(insert_point, inst)?;
+        Ok(())
+    }
+    #[doc = "Appends an OpLifetimeStop instruction to the current block."]
+    pub fn lifetime_stop(&mut self, pointer: spirv::Word, size: u32) -> BuildResult<()> {
+        #[allow(unused_mut)]
+        let mut inst = dr::Instruction::new(
+            spirv::Op::LifetimeStop,
+            None,
+            None,
+            vec![dr::Operand::IdRef(pointer), dr::Operand::LiteralBit32(size)],
+        );
+        self.insert_into_block(InsertPoint::End, inst)?;
+        Ok(())
+    }
+    #[doc = "Appends an OpLifetimeStop instruction to the current block."]
+    pub fn insert_lifetime_stop(
+        &mut self,
+        insert_point: InsertPoint,
+        pointer: spirv::Word,
+        size: u32,
+    ) -> BuildResult<()> {
+        #[allow(unused_mut)]
+        let mut inst = dr::Instruction::new(
+            spirv::Op::LifetimeStop,
+            None,
+            None,
+            vec![dr::Operand::IdRef(pointer), dr::Operand::LiteralBit32(size)],
+        );
+        self.insert_into_block(insert_point, inst)?;
+        Ok(())
+    }
     #[doc = "Appends an OpGroupAsyncCopy instruction to the current block."]
     pub fn group_async_copy(
         &mut self,
@@ -18608,6 +18666,25 @@ impl Builder {
             .extend(stride.into_iter().map(dr::Operand::IdRef));
         self.insert_into_block(insert_point, inst)?;
         Ok(_id)
+    }
+    #[doc = "Appends an OpDemoteToHelperInvocation instruction to the current block."]
+    pub fn demote_to_helper_invocation(&mut self) -> BuildResult<()> {
+        #[allow(unused_mut)]
+        let mut inst =
+            dr::Instruction::new(spirv::Op::DemoteToHelperInvocation, None, None, vec![]);
+        self.insert_into_block(InsertPoint::End, inst)?;
+        Ok(())
+    }
+    #[doc = "Appends an OpDemoteToHelperInvocation instruction to the current block."]
+    pub fn insert_demote_to_helper_invocation(
+        &mut self,
+        insert_point: InsertPoint,
+    ) -> BuildResult<()> {
+        #[allow(unused_mut)]
+        let mut inst =
+            dr::Instruction::new(spirv::Op::DemoteToHelperInvocation, None, None, vec![]);
+        self.insert_into_block(insert_point, inst)?;
+        Ok(())
     }
     #[doc = "Appends an OpIsHelperInvocationEXT instruction to the current block."]
     pub fn is_helper_invocation_ext(
